@@ -9,6 +9,7 @@ import (
 
 	"verif/checks/c01"
 	"verif/checks/c02"
+	"verif/checks/c13"
 	"verif/checks/c14"
 	"verif/checks/c15"
 	"verif/checks/c16"
@@ -24,6 +25,7 @@ type check struct {
 var checks = map[string]check{
 	"C01": {"model_checking", c01.Run},
 	"C02": {"model_checking", c02.Run},
+	"C13": {"model_checking", c13.Run},
 	"C14": {"model_checking", c14.Run},
 	"C15": {"model_checking", c15.Run},
 	"C16": {"model_checking", c16.Run},
